@@ -1,0 +1,26 @@
+//go:build verif
+
+package db
+
+import (
+	"context"
+
+	"github.com/sourcenetwork/defradb/client"
+	"github.com/sourcenetwork/defradb/event"
+)
+
+// VerifMerge executes the merge of the given event synchronously and returns its error.
+// It is what handleMessages does for one event, without the queue and the retry loop.
+// It exists only for the verification harness (build tag verif).
+func (db *DB) VerifMerge(ctx context.Context, evt event.Merge) error {
+	col, err := getCollectionFromCollectionID(ctx, db, evt.CollectionID)
+	if err != nil {
+		return err
+	}
+	return db.executeMerge(ctx, col, evt)
+}
+
+// VerifSetSchemaIDs exposes setSchemaIDs to the verification harness (build tag verif).
+func VerifSetSchemaIDs(schemas []client.SchemaDescription) error {
+	return setSchemaIDs(schemas)
+}
